@@ -49,7 +49,8 @@ def instantiate(rows, rng, lifts):
         decls.append(d)
         signed = INT_TYPES[ad["ty"]][0] < 0
         tys = [t for t in INT_TYPES if (INT_TYPES[t][0] < 0) == signed and t not in (ad["ty"], "u128")]
-        rng.shuffle(tys)
+        rot = i % len(tys)
+        tys = tys[rot:] + tys[:rot]
         n = 0
         for ty2 in tys:
             if n >= lifts:
